@@ -112,9 +112,9 @@ CLAIMED.update({
 
 CLAIMED.update({
  "C05": dict(category="proof",
-   text="v2 priority discipline. Environment of the property as assume-env clauses (listed in the evidence): every input has data waiting (a receive from an input never reports closed, the default case of io's select is not taken), inputs are buffered, the divider obeys the sum rule and the frame rule (what C14 proves of Fair and Rate). Proved under it, for every order and grouping of releases: the send hook requires gInflP[p] < strategic[p] (never more than its share); invariant SAT (actual[p] <= strategic[p] for every listed p) between rounds and ROUND (actual[p] + tactic[p] == strategic[p]) inside a round; calcTacticByAddUpToStrategic provably succeeds with tactic == strategic - actual - this needs 'sum over the priority list == sum of the map', proved with prefix sets pset(P,i), the restricted sum msumR and the invariant picked == msumR(strategic, pset) - msumR(actual, pset); prioritize exhausts the tactic, recalcTactic redistributes a zero remainder, so base ends with actual[p] == strategic[p] for every p (every priority holds exactly its share). NOT covered: v1 (during RemoveInput the in-flight items of a removed priority are outside the list, the list-sum argument does not hold there).",
+   text="v2 and v1 priority disciplines. Environment of the property as assume-env clauses (listed in the evidence): every input has data waiting (a receive from an input never reports closed, the default case of io's select is not taken), inputs are buffered, the divider obeys the sum rule and the frame rule (what C14 proves of Fair and Rate); for v1 in addition the configuration is the one given to New (no AddInput / RemoveInput request is received) and no stop request is pending - C05 is quantified over release histories of a running discipline. Proved under it, for every order and grouping of releases: the send hook requires gInflP[p] < strategic[p] (never more than its share); invariant SAT (actual[p] <= strategic[p] for every listed p) between rounds and ROUND (actual[p] + tactic[p] == strategic[p]) inside a round; calcTacticByAddUpToStrategic provably succeeds with tactic == strategic - actual - this needs 'sum over the priority list == sum of the map', proved with prefix sets pset(P,i), the restricted sum msumR and the invariant picked == msumR(strategic, pset) - msumR(actual, pset); prioritize exhausts the tactic, recalcTactic redistributes a zero remainder, so base ends with actual[p] == strategic[p] for every p (every priority holds exactly its share). The tables the argument starts from (shares sum to HandlersQuantity over the sorted list, nothing in flight) are proved of v2 prepare and of v1 updateInputs as called by New. NOT covered: v1 histories with AddInput / RemoveInput or a pending Stop (after a stop request the remaining plan of a round is redistributed, shares are not meant to hold then).",
    design_ref="DESIGN.md §7 C05, §12.6",
-   note=TB + "the saturation environment and the sum/frame rule of the divider are assumptions of the property itself; v1 not covered.",
+   note=TB + "the saturation environment, the fixed configuration (v1) and the sum/frame rule of the divider are assumptions of the property itself.",
    technique=GH2),
  "C06": dict(category="proof",
    text="Safety core of progress for the v2 and v1 priority disciplines: (i) the two blocking waits for a release (getOneFeedback, waitZeroActual) carry the obligation gInfl > 0 evaluated before the receive - the discipline never waits for a release that cannot come; (ii) calcTactic is proved to return 'proceed' whenever nothing is in flight (uses the list-sum/map-sum link of C05: shares sum to HandlersQuantity over the priority list, so the add-up-to-strategic path succeeds), which is what (i) needs in waitCalcTactic. Bounded stand-ins (labelled bounded, not proved; liveness): on the real v1 and v2 disciplines, with handlers that release every item, everything written is delivered and the discipline terminates, and a priority alone in having data (buffered inputs, nobody releasing) holds all HandlersQuantity handlers - 5 priority sets, Fair/Rate, HandlersQuantity 1..9, buffered and unbuffered inputs (DESIGN.md 12.8). NOT decided beyond that scope: eventual delivery and freedom from starvation over all histories.",
